@@ -139,6 +139,9 @@ class Recorder:
             def match(self, pattern, text, flags=0):
                 return rec._rec("match", pattern, text, flags)
 
+            def fullmatch(self, pattern, text, flags=0):
+                return rec._rec("fullmatch", pattern, text, flags)
+
             def sub(self, *a, **k):
                 return rec.real_regex.sub(*a, **k)
 
@@ -429,7 +432,8 @@ Definition rx_table (pid : nat) : re * nat :=
 Definition rx_run (c : nat * str) : option (nat * nat * list (option (nat * nat))) :=
   let (r, ng) := rx_table (fst c) in
   let res := if Nat.eqb (fst c) 8
-             then match match_at URX false (snd c) r 0 with Some (j, cp) => Some (0, j, cp) | None => None end
+             then match m URX false (snd c) r 0 [] (fun j cp => if Nat.eqb j (length (snd c)) then Some (j, cp) else None) with
+                  | Some (j, cp) => Some (0, j, cp) | None => None end
              else search URX false (snd c) r in
   match res with
   | Some (i, j, cp) => Some (i, j, map (fun n => cap_get n cp) (seq 1 ng))
